@@ -28,9 +28,19 @@ REASON_PENDING = "model and theorems for this property are not built yet in this
 ALL = [f"C{i:02d}" for i in range(1, 21)]
 
 
+def load_entries():
+    """manifest_entries/Cxx.json: {"property_id","technique","level_text","design_ref","level_note"} written per property."""
+    d = VERIF / "manifest_entries"
+    for f in sorted(d.glob("C*.json")) if d.is_dir() else []:
+        e = json.loads(f.read_text())
+        if (VERIF / "harness" / (e["property_id"].lower() + ".py")).exists():
+            CLAIMED[e["property_id"]] = (e["technique"], e["level_text"], e.get("design_ref", "DESIGN.md §5 " + e["property_id"]), e.get("level_note", ""))
+
+
 def main():
+    load_entries()
     checks = []
-    for pid, (technique, text, ref, note) in CLAIMED.items():
+    for pid, (technique, text, ref, note) in sorted(CLAIMED.items()):
         checks.append({
             "property_id": pid,
             "quick_cmd": f"bin/check {pid} quick",
